@@ -3,7 +3,10 @@
 (* event (its abstract configuration and the clock), then "present" events (the abstract record *)
 (* of the request it concretised and sent through the server path, with the observed result)    *)
 (* "adv" events (the JWT clock moved), "sync" events (a snapshot of the credential table was     *)
-(* delivered to the validator's etcd watcher and applied) and "reconf" events (a new generation  *)
+(* delivered to the validator's etcd watcher and applied), "edit" events (FILE mode: the harness  *)
+(* has rewritten the user file; it now holds the table the event carries), "settle" events (the   *)
+(* user file has not been touched for the bounded time the harness grants the validator's file    *)
+(* watcher - see the harness for how the wait is decided) and "reconf" events (a new generation  *)
 (* was built from a new spec with Inherit(running generation), the old one closed; the event     *)
 (* carries the abstract configuration, credential material and user table of the new spec).      *)
 (* Every present event must be a Present step of the contract (Validator.tla) with the observed  *)
@@ -22,7 +25,7 @@ VARIABLES l,      \* next trace line
           pl,     \* line of the last present event
           bad     \* sequence of [l, v, exp] for the events the contract does not allow
 
-tvars == <<vars, l, pl, bad>>
+tvars == <<vars, l, pl, bad>>   \* (vars of Validator: includes stale and ne)
 
 NoReqs(c) == {}
 NoRecfgs(c, e) == {}
@@ -33,20 +36,33 @@ TReset ==
     /\ IsEvent("reset")
     /\ cfg' = TLog[l].cfg /\ mat' = Mat0 /\ now' = TLog[l].now /\ users' = Users0
     /\ at' = Env(TLog[l].cfg, TLog[l].now, Users0, Mat0)
-    /\ req' = NoReq /\ res' = NoRes /\ n' = 0 /\ ns' = 0 /\ nr' = 0
+    /\ req' = NoReq /\ res' = NoRes /\ n' = 0 /\ ns' = 0 /\ nr' = 0 /\ ne' = 0 /\ stale' = {}
     /\ UNCHANGED <<bad, pl>>
 
 TAdv ==
     /\ IsEvent("adv")
     /\ TLog[l].d > 0
     /\ now' = now + TLog[l].d
-    /\ UNCHANGED <<cfg, mat, users, req, res, at, n, ns, nr, bad, pl>>
+    /\ UNCHANGED <<cfg, mat, users, stale, req, res, at, n, ns, nr, ne, bad, pl>>
 
 TSync ==
     /\ IsEvent("sync")
     /\ cfg.basic = "etcd" /\ TLog[l].users \in UserTables
     /\ users' = TLog[l].users /\ ns' = ns + 1
-    /\ UNCHANGED <<cfg, mat, now, req, res, at, n, nr, bad, pl>>
+    /\ UNCHANGED <<cfg, mat, now, stale, req, res, at, n, nr, ne, bad, pl>>
+
+TEdit ==
+    /\ IsEvent("edit")
+    /\ cfg.basic = "file" /\ TLog[l].users \in UserTables
+    /\ users' = TLog[l].users /\ stale' = stale \cup {users} /\ ne' = ne + 1     \* Edit, also with the table unchanged (a touch)
+    /\ UNCHANGED <<cfg, mat, now, req, res, at, n, ns, nr, bad, pl>>
+
+(* a settle event after which nothing was pending (the harness grants the wait anyway) is a stutter *)
+TSettle ==
+    /\ IsEvent("settle")
+    /\ cfg.basic = "file"
+    /\ stale' = {}
+    /\ UNCHANGED <<cfg, mat, now, users, req, res, at, n, ns, nr, ne, bad, pl>>
 
 TReconf ==
     /\ IsEvent("reconf")
@@ -62,14 +78,14 @@ TPresent ==
               ELSE Append(bad, [l |-> l, v |-> [m \in Methods |-> V(cfg, TLog[l].req, Cur, m)],
                                 exp |-> Verdict(cfg, TLog[l].req, Cur)])
 
-TNext == TReset \/ TAdv \/ TSync \/ TReconf \/ TPresent
+TNext == TReset \/ TAdv \/ TSync \/ TEdit \/ TSettle \/ TReconf \/ TPresent
 
 TInit ==
     /\ l = 1 /\ pl = 0 /\ bad = <<>>
     /\ cfg = [hdr |-> "both", jwt |-> [on |-> FALSE, alg |-> "HS256", cookie |-> FALSE],
               sig |-> [on |-> FALSE, ttl |-> FALSE, excl |-> FALSE], basic |-> "off"]
     /\ mat = Mat0 /\ now = 0 /\ users = Users0 /\ at = Env(cfg, 0, Users0, Mat0) /\ req = NoReq /\ res = NoRes
-    /\ n = 0 /\ ns = 0 /\ nr = 0
+    /\ n = 0 /\ ns = 0 /\ nr = 0 /\ ne = 0 /\ stale = {}
 
 TSpec == TInit /\ [][TNext]_tvars
 
